@@ -5,12 +5,12 @@
 package sim
 
 import (
-	"regexp"
 	"crypto/ecdsa"
 	"crypto/sha256"
 	"encoding/hex"
 	"fmt"
 	"math/big"
+	"regexp"
 	"strings"
 
 	ethcrypto "github.com/ethereum/go-ethereum/crypto"
